@@ -39,6 +39,24 @@ def rnd_val(rng):
     return rng.choice([1e-300, -1e-300, 1e300, -1e300, 5e-324])
 
 
+# translator tie: metrology/line_profiles.rs point_curve2_deviation is regenerated on every run and proved (by conversion) to be the
+# model's (normal, value) on the station's point and surface normal; the CurveStation2 is abstracted to those two accessors
+SPECS = [dict(rust="src/metrology/line_profiles.rs", gen="LineProfiles", model="Model.Deviation", fns=[],
+              extra_structs={"SurfacePoint2": [("point", "Point2"), ("normal", "UnitVec2")], "CurveStation2": [("pt", "Point2"), ("nrm", "UnitVec2")]},
+              method_map={"CurveStation2.surface_point": ["(mk_SurfacePoint2 (CurveStation2_pt {0}) (CurveStation2_nrm {0}))", "SurfacePoint2"],
+                          "CurveStation2.point": ["(CurveStation2_pt {0})", "Point2"]},
+              call_map={"SurfaceDeviation2::new": "({0}, {1})", "SurfacePoint2::new": "(mk_SurfacePoint2 {0} {1})"},
+              call_ty={"SurfacePoint2::new": "SurfacePoint2"}, type_map={"SurfaceDeviation2": "(SurfacePoint2 * num)%type"},
+              stmts={"point_curve2_deviation":
+                     "forall (N : EG.Num.Num.Num) (s : @CurveStation2 N) p, @{G}.point_curve2_deviation N s p = "
+                     "(@mk_SurfacePoint2 N (CurveStation2_pt s) (@{M}.dev2_normal N (CurveStation2_pt s) (CurveStation2_nrm s) p), "
+                     "@{M}.dev2_value N (CurveStation2_pt s) (CurveStation2_nrm s) p)"})]
+
+
+def translate():
+    return C.translator_tie(SPECS)
+
+
 def gen_sds(rng):
     n0 = rng.choice([0, 0, 1, 2, 3, 5, 8])
     init = [rnd_val(rng) for _ in range(n0)]
